@@ -5,6 +5,8 @@ pub mod c05;
 pub mod c07;
 pub mod c08;
 pub mod c09;
+pub mod c10;
+pub mod c11;
 
 use engine::Space;
 
@@ -17,6 +19,8 @@ pub fn build(id: &str, tier: &str, _seed: u64) -> Option<Box<dyn Space + Sync + 
         "C07" => Box::new(c07::C07::new(tier)),
         "C08" => Box::new(c08::C08::new(tier)),
         "C09" => Box::new(c09::C09::new(tier)),
+        "C10" => Box::new(c10::C10::new(tier)),
+        "C11" => Box::new(c11::C11::new(tier)),
         _ => return None,
     })
 }
